@@ -1,7 +1,9 @@
 package graphql
 
 import (
+	"context"
 	"fmt"
+	"strings"
 	"testing"
 )
 
@@ -161,5 +163,96 @@ func TestVerifSearch_C19_FragmentSharing(t *testing.T) {
 		}
 	}
 	fmt.Printf("VERIF-SAMPLE: { a { ...F @skip(if: true) } b { ...F } c { ...F } } fragment F on T { x }\n")
+	fmt.Printf("VERIF-BOUNDED: evaluations=%d distinct=%d failures=%d\n", evals, distinct, failures)
+}
+
+// ---- end-to-end oracle on the real executor: a query with directives returns what the textually pruned query returns.
+func verifC19Schema() *Schema {
+	noArgs := func(json interface{}) (interface{}, error) { return nil, nil }
+	scalar := func(v interface{}) *Field {
+		return &Field{Resolve: func(ctx context.Context, source, args interface{}, s *SelectionSet) (interface{}, error) { return v, nil }, Type: &Scalar{Type: "int"}, ParseArguments: noArgs}
+	}
+	inner := &Object{Name: "Inner", Fields: map[string]*Field{"x": scalar(1), "y": scalar(2)}}
+	type innerT struct{}
+	return &Schema{Query: &Object{Name: "Query", Fields: map[string]*Field{
+		"a": scalar(7),
+		"o": {Resolve: func(ctx context.Context, source, args interface{}, s *SelectionSet) (interface{}, error) { return &innerT{}, nil }, Type: inner, ParseArguments: noArgs},
+	}}}
+}
+
+func verifC19Exec(query string) (interface{}, error) {
+	schema := verifC19Schema()
+	q, err := Parse(query, map[string]interface{}{})
+	if err != nil {
+		return nil, err
+	}
+	if err := PrepareQuery(context.Background(), schema.Query, q.SelectionSet); err != nil {
+		return nil, err
+	}
+	e := NewExecutor(NewImmediateGoroutineScheduler())
+	return e.Execute(context.Background(), schema.Query, nil, q)
+}
+
+type verifNode struct {
+	text    string // the node without directives
+	dir     string
+	include bool
+}
+
+// TestVerifSearch_C19_Exec: every pair of top-level nodes from a small alphabet (fields, aliases, __typename, an object
+// field with sub-selections), each with one of five directive forms; the result must equal that of the pruned query.
+func TestVerifSearch_C19_Exec(t *testing.T) {
+	texts := []string{"a", "b: a", "__typename", "t: __typename", "o { x }", "o { y }", "o { x @skip(if: true) y }"}
+	dirs := []struct {
+		d  string
+		in bool
+	}{{"", true}, {"@skip(if: true)", false}, {"@skip(if: false)", true}, {"@include(if: false)", false}, {"@skip(if: false) @include(if: false)", false}}
+	withDir := func(text, d string) string {
+		if d == "" {
+			return text
+		}
+		if i := strings.Index(text, " {"); i >= 0 {
+			return text[:i] + " " + d + text[i:]
+		}
+		return text + " " + d
+	}
+	evals, distinct, failures := 0, 0, 0
+	for _, t1 := range texts {
+		for _, d1 := range dirs {
+			for _, t2 := range texts {
+				for _, d2 := range dirs {
+					evals++
+					if d1.d != "" || d2.d != "" {
+						distinct++
+					}
+					full := "{ " + withDir(t1, d1.d) + " " + withDir(t2, d2.d) + " }"
+					pruned := "{ "
+					if d1.in {
+						pruned += t1 + " "
+					}
+					if d2.in {
+						pruned += t2 + " "
+					}
+					pruned += "}"
+					pruned = strings.ReplaceAll(pruned, "x @skip(if: true) ", "")
+					if !d1.in && !d2.in {
+						continue // the pruned query would be empty (not a legal document)
+					}
+					got, err1 := verifC19Exec(full)
+					want, err2 := verifC19Exec(pruned)
+					if err2 != nil {
+						continue
+					}
+					if err1 != nil || verifJSON(got) != verifJSON(want) {
+						failures++
+						if failures == 1 {
+							fmt.Printf("VERIF-FAIL-INPUT: %s\n", verifJSON(map[string]interface{}{"query": full, "pruned": pruned, "got": got, "want": want, "err": fmt.Sprint(err1)}))
+						}
+					}
+				}
+			}
+		}
+	}
+	fmt.Printf("VERIF-SAMPLE: { __typename @skip(if: true) a }\n")
 	fmt.Printf("VERIF-BOUNDED: evaluations=%d distinct=%d failures=%d\n", evals, distinct, failures)
 }
